@@ -41,7 +41,7 @@ func init() {
 	register(&Rule{ID: "R06.3", Props: []string{"C06", "C04"}, Floor: 2,
 		Doc: "handler runs under recover and frees its channel on exit",
 		Run: runR06_3})
-	register(&Rule{ID: "R06.4", Props: []string{"C06"}, Floor: 5,
+	register(&Rule{ID: "R06.4", Props: []string{"C06", "C03"}, Floor: 5,
 		Doc: "frames for unknown, freed or closed channels are dropped with status OK",
 		Run: runR06_4})
 	register(&Rule{ID: "R06.5", Props: []string{"C06", "C11"}, Floor: 5,
